@@ -937,6 +937,7 @@ class HostConnectionPool(object):
         errors = []
 
         if not remaining_callbacks:
+            self._keyspace = keyspace
             callback(self, errors)
             return
 
